@@ -340,7 +340,7 @@ Proof.
     pose proof (ok2_tag s Hok1) as [Hleg Heov].
     destruct o.
     + (* OPTIONAL field *)
-      destruct vs as [|v0 vr]; [discriminate|]. destruct v0 as [x|b| |vs0|[x|]]; try discriminate.
+      destruct vs as [|v0 vr]; [discriminate|]. destruct v0 as [x|b| |vs0|[x|]|cc0|u0 bs0]; try discriminate.
       * (* present *)
         cbn [enc2l] in He. destruct (enc2 s x) as [e|] eqn:E1; [|discriminate].
         destruct (enc2l r vr) as [er|] eqn:E2; [|discriminate]. injection He as <-.
@@ -420,7 +420,7 @@ Qed.
 Lemma RT2_seq t fs : Forall (fun bf => RT2 (snd bf)) fs -> RT2 (S2Seq t fs).
 Proof.
   intros HF v e m d Hok He Hw. pose proof (RTL2_of_Forall fs HF) as HL.
-  destruct v as [x|b| |vs|o]; try discriminate. rewrite enc2_seq in He.
+  destruct v as [x|b| |vs|o|cc0|u0 bs0]; try discriminate. rewrite enc2_seq in He.
   destruct (enc2l fs vs) as [es|] eqn:El; [|discriminate]. injection He as <-.
   apply ok2_seq in Hok as (Htok & Hdi & Hoks).
   assert (Hb : exists body, enc_write m (ESeq es) = Ok body).
@@ -469,6 +469,18 @@ Example schema2_example :
   let v := VSeq [VOpt None; VInt (-300); VOpt (Some (VSeq [VNull])); VOpt None] in
   ok2 s /\ exists e, enc2 s v = Some e /\ enc_write Der e = Ok [48; 8; 2; 2; 254; 212; 49; 2; 5; 0] /\
   decode_src Der (fun c => mandatory (dec2 (depth2 s) s c)) (pure_src [48; 8; 2; 2; 254; 212; 49; 2; 5; 0] None) = (Ok v, pure_src [] None).
+Proof.
+  cbv zeta. split.
+  - cbn. repeat split; try (left; reflexivity); try (intros _ [E|[E|[]]]; discriminate E); try (intros _ [E|[]]; discriminate E); try (intros _ []); try discriminate.
+  - eexists. split; [reflexivity|]. split; vm_compute; reflexivity.
+Qed.
+
+(* non-vacuity for the OBJECT IDENTIFIER and BIT STRING leaves, in CER (indefinite record) *)
+Example schema2_example_oid_bits :
+  let s := S2Seq T_SEQUENCE [(false, S2Leaf T_OID LOid); (true, S2Leaf T_BIT_STRING LBits); (true, S2Leaf T_NULL LNull)] in
+  let v := VSeq [VBytes [42; 134; 72]; VOpt (Some (VBits 3 [168])); VOpt None] in
+  ok2 s /\ exists e, enc2 s v = Some e /\ enc_write Cer e = Ok [48; 128; 6; 3; 42; 134; 72; 3; 2; 3; 168; 0; 0] /\
+  decode_src Cer (fun c => mandatory (dec2 (depth2 s) s c)) (pure_src [48; 128; 6; 3; 42; 134; 72; 3; 2; 3; 168; 0; 0] None) = (Ok v, pure_src [] None).
 Proof.
   cbv zeta. split.
   - cbn. repeat split; try (left; reflexivity); try (intros _ [E|[E|[]]]; discriminate E); try (intros _ [E|[]]; discriminate E); try (intros _ []); try discriminate.
